@@ -117,6 +117,13 @@ Fixpoint dec_num (acc : Z) (s : text) : option Z :=
   | c :: r => if is_digit c then dec_num (acc * 10 + (c - 48)) r else None
   end.
 
+(* roxmltree, consume_reference: the number must fit u32; char::from_u32(n).unwrap_or(U+FFFD);
+   the character must then be an XML character *)
+Definition char_ref (n : Z) : option Z :=
+  if 4294967295 <? n then None
+  else let c := if is_surrogate n || (1114111 <? n) then 65533 else n in
+       if xml_char_ok c then Some c else None.
+
 (* the text between '&' and ';' *)
 Definition resolve_ref (name : text) : option Z :=
   if text_eqb name [108; 116] then Some 60
@@ -127,13 +134,13 @@ Definition resolve_ref (name : text) : option Z :=
   else match name with
        | h :: x :: d :: ds =>
            if (h =? 35) && (x =? 120) then
-             match hex_num 0 (d :: ds) with Some n => if xml_char_ok n then Some n else None | None => None end
+             match hex_num 0 (d :: ds) with Some n => char_ref n | None => None end
            else if h =? 35 then
-             match dec_num 0 (x :: d :: ds) with Some n => if xml_char_ok n then Some n else None | None => None end
+             match dec_num 0 (x :: d :: ds) with Some n => char_ref n | None => None end
            else None
        | h :: d :: ds =>
            if h =? 35 then
-             match dec_num 0 (d :: ds) with Some n => if xml_char_ok n then Some n else None | None => None end
+             match dec_num 0 (d :: ds) with Some n => char_ref n | None => None end
            else None
        | _ => None
        end.
